@@ -47,6 +47,29 @@ def run(check, repo: Repo) -> None:
         raise AnalysisError("DriftInterpolator.__init__: kind of self.u not derivable")
     check.decide(isinstance(u, Comp) and u.axis == COL, "C15-R1", "DriftInterpolator: the scan-line parameter u is sampled over the column extent",
                  str(u), mod.line(init), fail_detail=f"self.u is {u}: a scan line has one sample per image column")
+    # … and runs from exactly 0 at the first to exactly 1 at the last column (the knot abscissae are linspace(0, 1, k)): linspace(0, 1, cols) or index/(cols − 1)
+    udef = [n.value for n in ast.walk(init) if isinstance(n, ast.Assign) and dotted(n.targets[0]) == "self.u"]
+    if len(udef) != 1:
+        raise AnalysisError("DriftInterpolator.__init__: single definition of self.u not found")
+    ue, u_ok, u_why = udef[0], None, ""
+    if isinstance(ue, ast.Call) and call_name(ue) == "np.linspace" and len(ue.args) >= 3:
+        u_ok = is_const(ue.args[0], 0) and is_const(ue.args[1], 1) and unparse(ue.args[2]) == "input_shape[1]" and kwarg(ue, "endpoint") is None
+        u_why = unparse(ue)
+    elif isinstance(ue, ast.BinOp) and isinstance(ue.op, ast.Div):
+        num_ok = unparse(ue.left) in ("self.cols_input", "np.arange(input_shape[1])")
+        try:
+            den = from_ast(ue.right, {"input_shape[1]": Rat.sym("N")})
+            if num_ok and den.equals(Rat.sym("N") - Rat.const(1)):
+                u_ok = True
+            elif num_ok:
+                u_ok, u_why = False, f"index / ({unparse(ue.right)}) ends at (N−1)/({unparse(ue.right)}) ≠ 1"
+        except NotArithmetic:
+            u_ok = None
+    if u_ok is None:
+        raise AnalysisError(f"DriftInterpolator.__init__: self.u = `{unparse(ue)[:50]}` not recognised")
+    check.decide(u_ok, "C15-R1", "DriftInterpolator: the scan-line parameter runs from 0 at the first column to exactly 1 at the last", u_why, mod.line(ue), definite=True,
+                 fail_detail=f"self.u = `{unparse(ue)[:60]}` ({u_why}): the 2–4-knot arms evaluate their spline short of the last knot, so straight lines described by 1 knot and by "
+                             f"k knots no longer give identical coordinates")
     seeds = {k: v for k, v in k0.env.items() if k.startswith("self.")}
     k1 = KAT(tr, index_axes={"self.input_shape": IMG_AXES}, seeds=seeds).run()
     single = None
@@ -65,6 +88,13 @@ def run(check, repo: Repo) -> None:
         mine = [(n, m) for n, m in arm_clashes if any(n is x for x in ast.walk(s))]
         # the extent that scales u
         exts = [unparse(x) for x in ast.walk(s.value) if isinstance(x, ast.Subscript) and unparse(x.value) == "self.input_shape"]
+        # equivalent spelling: u·(cols−1) is the column index itself — `self.cols_input[None, :] * fast[k]` with cols_input = arange(columns)
+        txt_ = unparse(s.value)
+        ci = k0.env.get("self.cols_input")
+        if "self.u" not in txt_ and "self.cols_input" in txt_ and not exts and getattr(ci, "axis", None) == COL and not mine:
+            ci_def = [unparse(n.value) for n in ast.walk(init) if isinstance(n, ast.Assign) and dotted(n.targets[0]) == "self.cols_input"]
+            if ci_def == ["np.arange(input_shape[1])"]:
+                exts = ["self.input_shape[1]"]
         check.decide(not mine and exts == ["self.input_shape[1]"], "C15-R1",
                      f"transform_rows[1 knot]: `{name}` scales the column-sampled parameter by (columns − 1)", f"extent used: {exts}", mod.line(s),
                      fail_detail=(mine[0][1] if mine else f"extent used: {exts}") +
